@@ -53,7 +53,9 @@ def shapes(tier, seed):
     base = [sh for sh in c06.shapes(tier, seed) if not (sh.get("sqlcount") or sh.get("processor") or sh.get("kind") == "processed")]
     for sh in base + _nested(tier):
         for ex in (False, True):
-            for decl in ("loose", "zero") if not ex else ("loose",):
+            for decl in ("loose", "zero", "some") if not ex else ("loose", "some"):
+                if decl == "some" and not ({"proj none", "dedup"} & set(sh.get("labels") or ()) or "nested" in (sh.get("labels") or ())):
+                    continue  # declared lower bounds matter where a result can be statically the join identity
                 s = dict(sh)
                 s["executor"] = ex
                 s["decl"] = decl
@@ -79,6 +81,9 @@ def run_shape(shape, tier):
             if shape["decl"] == "zero" and name == "X":
                 ctx.assume(tab.count() == 0)
                 add_abstract_leaf(env, name, LEAVES[name], eng, tab, min_rows=0, max_rows=0)
+            elif shape["decl"] == "some":
+                ctx.assume(tab.count() >= 1)  # the leaf truthfully declares at least one row
+                add_abstract_leaf(env, name, LEAVES[name], eng, tab, min_rows=1, max_rows=None)
             else:
                 add_abstract_leaf(env, name, LEAVES[name], eng, tab, min_rows=0, max_rows=None)
         templates.declare(ctx, env, shape["params"], shape["cons"])
@@ -158,7 +163,7 @@ def concrete_check(prog, eng, rows, bind, with_executor, decl):
             leafrows[name] = [{}] if SPECIAL[name][0] == "identity" else []
         else:
             zero = decl == "zero" and name == "X"
-            add_abstract_leaf(env, name, LEAVES[name], eng, None, min_rows=0, max_rows=0 if zero else None)
+            add_abstract_leaf(env, name, LEAVES[name], eng, None, min_rows=1 if decl == "some" else 0, max_rows=0 if zero else None)
             leafrows[name] = rows[name]
     try:
         rel = build(prog, env)
